@@ -155,7 +155,13 @@ Json Config::to_json() const
 	for (auto& f : filters) fs.push(f);
 	j.set("filters", fs);
 	j.set("nohidden", nohidden).set("parity_limit", parity_limit).set("autosave_at", autosave_at).set("fiemap_mode", fiemap_mode)
-		.set("scan_order", scan_order).set("skip_fallocate", skip_fallocate);
+		.set("scan_order", scan_order).set("skip_fallocate", skip_fallocate).set("parity_prefix", std::string(1, parity_prefix));
+	Json et = Json::arr();
+	for (auto& t : extra_tops) et.push(t);
+	j.set("extra_tops", et);
+	Json bj = Json::obj();
+	for (auto& kv : budgets) bj.set(kv.first, kv.second);
+	j.set("budgets", bj);
 	return j;
 }
 
@@ -183,6 +189,9 @@ Config Config::from_json(const Json& j)
 	c.fiemap_mode = (int)j.num("fiemap_mode", 1);
 	c.scan_order = (int)j.num("scan_order");
 	c.skip_fallocate = j.at("skip_fallocate").b;
+	c.parity_prefix = j.str("parity_prefix", "p")[0];
+	for (auto& t : j.at("extra_tops").a) c.extra_tops.push_back(t.s);
+	for (auto& kv : j.at("budgets").o) c.budgets[kv.first] = kv.second.i;
 	return c;
 }
 
@@ -293,6 +302,7 @@ std::vector<std::string> Sandbox::all_tops() const
 	for (auto& c : cfg.content) s.insert(top_of(c));
 	if (cfg.pool) s.insert("pool");
 	s.insert("imp");
+	for (auto& t : cfg.extra_tops) s.insert(t);
 	return std::vector<std::string>(s.begin(), s.end());
 }
 
@@ -305,8 +315,18 @@ void Sandbox::register_devices()
 		for (auto& d : cfg.disks) if (d.top == t) uuid = d.uuid;
 		if (t[0] == 'p' && t != "pool") uuid = ""; // parity devices: no uuid (keeps content deterministic and simple)
 		// sizes are constants of the run: they are written into the content file
-		sim_dev_add(t.c_str(), uuid.c_str(), (uint64_t)(64 + k) << 20, (uint64_t)(32 + k) << 20);
+		int idx = sim_dev_add(t.c_str(), uuid.c_str(), (uint64_t)(64 + k) << 20, (uint64_t)(32 + k) << 20);
+		auto bit = cfg.budgets.find(t);
+		if (idx >= 0 && bit != cfg.budgets.end()) sim_sh->dev[idx].budget_bytes = bit->second;
 		++k;
+	}
+}
+
+void Sandbox::register_devices_keep_vinos()
+{
+	for (int i = 0; i < sim_sh->ndev; ++i) {
+		auto bit = cfg.budgets.find(sim_sh->dev[i].top);
+		sim_sh->dev[i].budget_bytes = bit != cfg.budgets.end() ? bit->second : -1;
 	}
 }
 
